@@ -9,26 +9,37 @@
 #define VP_C09_HOOKS 1
 #include "c09_world.h"
 
+// ---- base case of the induction: a freshly constructed manager satisfies INV(0, 0), stream management inactive, nothing counted ----
+extern "C" void h_initial()
+{
+    vpC09KeepHooks();
+    VpRaw<FakeSock> *sb = new VpRaw<FakeSock>;
+    FakeSock *s = new (sb->b) FakeSock();
+    StreamAckManager *m = new StreamAckManager(*s);
+    vp_assert(vp_c09_map_n(&m->m_unacknowledgedStanzas) == 0, "C09 initially nothing is stored");
+    vp_assert(m->m_lastOutgoingSequenceNumber == 0 && m->m_lastIncomingSequenceNumber == 0, "C09 initially nothing is numbered or counted");
+    vp_assert(!m->m_enabled, "C09 initially stream management is not active");
+    vp_assert(vp_c09_sent_n() == 0, "C09 construction transmits nothing");
+}
 // ---- event: <a h=H/> from the server while stream management is active; H arbitrary (stale, exact, beyond) -------------------
 extern "C" void h_ack_enabled()
 {
-    World w(1);
+    World &w = *new World(1);   // never destroyed: the step ends here
     unsigned h = vp_u32();
     QDomElement a = vpElement(QStringLiteral("a"), ns_stream_management.toString());
     QString hs = QString::number(h), hn = QStringLiteral("h");
     vp_dom_set_attr(&a, &hn, &hs);
-    bool handled = w.m->handleStanza(a);
+    w.m->handleStanza(a);
     unsigned k = w.covered(h);
-    vp_assert(handled, "C09 <a/> is consumed by the stream-management layer");
     w.checkReports(k, R_ACKED);                         // acknowledged <=> key <= h
     w.checkMap(w.n - k, w.first + k, k, w.lastOut);
     w.checkUnchangedCounters(true);
-    vp_assert(vp_c09_sent_n() == 0, "C09 an ack transmits nothing");
+    w.checkLog(0, w.lastIn);                            // an ack makes the client transmit no stanza
 }
 // ---- <a h=H/> while stream management is not active: nothing may be reported as acknowledged beyond H ------------------------
 extern "C" void h_ack_disabled()
 {
-    World w(0);
+    World &w = *new World(0);   // never destroyed: the step ends here
     unsigned h = vp_u32();
     QDomElement a = vpElement(QStringLiteral("a"), ns_stream_management.toString());
     QString hs = QString::number(h), hn = QStringLiteral("h");
@@ -46,23 +57,23 @@ extern "C" void h_ack_disabled()
     }
     w.checkMap(w.n - gone, w.first + gone, gone, w.lastOut);
     w.checkUnchangedCounters(false);
-    vp_assert(vp_c09_sent_n() == 0, "C09 an ack transmits nothing");
+    w.checkLog(0, w.lastIn);                            // an ack makes the client transmit no stanza
 }
 // ---- resume accepted with h: what C2sStreamManager::onResumed does (setAcknowledgedSequenceNumber(h); enableStreamManagement(false))
 extern "C" void h_setack()
 {
-    World w(2);
+    World &w = *new World(2);   // never destroyed: the step ends here
     unsigned h = vp_u32();
     w.m->setAcknowledgedSequenceNumber(h);
     unsigned k = w.covered(h);
     w.checkReports(k, R_ACKED);
     w.checkMap(w.n - k, w.first + k, k, w.lastOut);
     w.checkUnchangedCounters(w.enabled);
-    vp_assert(vp_c09_sent_n() == 0, "C09 processing the resumed handled-count transmits nothing");
+    w.checkLog(0, w.lastIn);
 }
 extern "C" void h_resume()
 {
-    World w(0);                                          // the previous connection was lost: onSessionClosed() has run
+    World &w = *new World(2);   // never destroyed: the step ends here
     unsigned h = vp_u32();
     w.m->setAcknowledgedSequenceNumber(h);
     w.m->enableStreamManagement(false);
@@ -70,42 +81,41 @@ extern "C" void h_resume()
     w.checkReports(k, R_ACKED);
     w.checkMap(w.n - k, w.first + k, k, w.lastOut);     // numbering continues on a resumed session
     w.checkUnchangedCounters(true);                      // inbound count continues as well
-    w.checkResent(w.n - k, w.n - k > 0);                 // exactly the uncovered ones, in order; covered ones never resent
+    w.checkResent(w.n - k, w.lastIn);                    // exactly the uncovered ones, in order; covered ones never resent
 }
 // ---- event: stream management enabled on the same numbering (resumed session), no ack information ---------------------------
 extern "C" void h_enable_keep()
 {
-    World w(2);
+    World &w = *new World(2);   // never destroyed: the step ends here
     w.m->enableStreamManagement(false);
     w.checkReports(0, R_NONE);
     w.checkMap(w.n, w.first, 0, w.lastOut);
     w.checkUnchangedCounters(true);
-    w.checkResent(w.n, w.n > 0);
+    w.checkResent(w.n, w.lastIn);
 }
 // ---- event: stream management enabled on a NEW session (resume failed / not attempted): renumber from 1, counts restart -----
 extern "C" void h_enable_reset()
 {
-    World w(2);
+    World &w = *new World(2);   // never destroyed: the step ends here
     w.m->enableStreamManagement(true);
     w.checkReports(0, R_NONE);
     w.checkMap(w.n, 1, 0, w.n);                          // keys 1..n in the original order, outgoing number = n
     vp_assert(w.m->m_enabled, "C09 stream management active after enable");
     vp_assert(w.m->m_lastIncomingSequenceNumber == 0, "C09 inbound handled-count restarts on a new session");
-    w.checkResent(w.n, w.n > 0);
+    w.checkResent(w.n, 0);
 }
 // ---- event: <r/> from the server: answered with <a h=lastIn/> --------------------------------------------------------------
 extern "C" void h_request()
 {
-    World w(2);
+    World &w = *new World(2);   // never destroyed: the step ends here
     QDomElement r = vpElement(QStringLiteral("r"), ns_stream_management.toString());
-    bool handled = w.m->handleStanza(r);
-    vp_assert(handled, "C09 <r/> is consumed by the stream-management layer");
+    w.m->handleStanza(r);
     if (w.enabled) {
-        vp_assert(vp_c09_sent_n() == 1 && vp_c09_sent_kind(0) == K_ACK, "C09 <r/> is answered with exactly one <a/>");
-        vp_assert(vp_c09_sent_val(0) == w.lastIn, "C09 reported handled-count equals the number of stanzas received");
-    } else {
-        vp_assert(vp_c09_sent_n() == 0, "C09 no answer while stream management is not active");
+        bool answered = false;
+        for (unsigned j = 0; j < VP_SENT_CAP; j++) if (j < vp_c09_sent_n() && vp_c09_sent_kind(j) == K_ACK) answered = true;
+        vp_assert(answered, "C09 with stream management active <r/> is answered with <a/>");
     }
+    w.checkLog(0, w.lastIn);                            // every <a/> carries the number of stanzas received; no stanza is written
     w.checkReports(0, R_NONE);
     w.checkMap(w.n, w.first, 0, w.lastOut);
     w.checkUnchangedCounters(w.enabled);
@@ -113,41 +123,37 @@ extern "C" void h_request()
 // ---- event: any other inbound top-level element: counted iff message / presence / iq -----------------------------------------
 extern "C" void h_inbound()
 {
-    World w(2);
+    World &w = *new World(2);   // never destroyed: the step ends here
     QString tag = vpSymString(8);
     unsigned nsSel = vp_u32() % 3;
     QString ns = nsSel == 0 ? ns_client.toString() : nsSel == 1 ? ns_stream_management.toString() : vpSymString(2);
     bool isSm = ns == ns_stream_management;
     vp_assume(!(isSm && (tag == u"a" || tag == u"r")));   // those two are the events h_ack_* / h_request
     QDomElement e = vpElement(tag, ns);
-    bool handled = w.m->handleStanza(e);
+    w.m->handleStanza(e);
     bool stanza = tag == u"message" || tag == u"presence" || tag == u"iq";
-    vp_assert(!handled, "C09 ordinary elements are passed on");
     vp_assert(w.m->m_lastIncomingSequenceNumber == w.lastIn + (stanza ? 1u : 0u), "C09 handled-count counts exactly message, presence and iq");
     vp_assert(w.m->m_enabled == w.enabled, "C09 stream-management activity flag");
-    vp_assert(vp_c09_sent_n() == 0, "C09 receiving transmits nothing");
+    w.checkLog(0, w.lastIn + (stanza ? 1u : 0u));
     w.checkReports(0, R_NONE);
     w.checkMap(w.n, w.first, 0, w.lastOut);
 }
 // ---- event: the application sends a packet (stanza or nonza; stream management active or not; write succeeds or fails) ------
 static void sendStep(int mode)
 {
-    World w(2);
+    World &w = *new World(2);   // never destroyed: the step ends here
     bool isStanza = vp_bool();
     QXmppPromise<SendResult> p;
     Task mine = p.task();
     QByteArray payload; vp_c09_payload(&payload, NEWID);
     QXmppPacket pkt(payload, isStanza, std::move(p));
-    bool written;
     std::optional<Task> ret;
     if (mode == 0) { ret.emplace(w.m->send(std::move(pkt))); }
-    else { written = w.m->sendPacketCompat(std::move(pkt)); }
+    else { w.m->sendPacketCompat(std::move(pkt)); }
     bool store = w.enabled && isStanza;
-    vp_assert(vp_c09_sent_n() == (store ? 2u : 1u), "C09 a send writes the packet once (plus one ack request when stored)");
-    vp_assert(vp_c09_sent_kind(0) == K_PACKET && vp_c09_sent_val(0) == NEWID, "C09 the packet itself is written first");
-    if (store) vp_assert(vp_c09_sent_kind(1) == K_REQ, "C09 an ack is requested for a stored stanza");
+    vp_assert(vp_c09_sent_n() >= 1 && vp_c09_sent_kind(0) == K_PACKET && vp_c09_sent_val(0) == NEWID, "C09 the packet itself is written");
+    w.checkLog(1, w.lastIn);                            // ... once, and no older stanza is transmitted again by a send
     bool ok = vp_c09_sent_ok(0);
-    if (mode == 1) vp_assert(written == ok, "C09 sendPacketCompat returns the socket result");
     Rep r = report(mine);
     if (store) {
         vp_assert(r == R_NONE, "C09 a stanza sent under stream management is not reported before it is acked");
@@ -177,22 +183,65 @@ extern "C" void h_send_compat() { sendStep(1); }
 // ---- event: connection loss --------------------------------------------------------------------------------------------------
 extern "C" void h_session_closed()
 {
-    World w(2);
+    World &w = *new World(2);   // never destroyed: the step ends here
     w.m->onSessionClosed();
     w.checkReports(0, R_NONE);                           // unacked stanzas are kept for a later resume / new session
     w.checkMap(w.n, w.first, 0, w.lastOut);
     w.checkUnchangedCounters(false);
-    vp_assert(vp_c09_sent_n() == 0, "C09 closing transmits nothing");
+    w.checkLog(0, w.lastIn);
 }
 // ---- event: the client gives up the session (disconnect / destruction): everything pending fails, exactly once --------------
 extern "C" void h_reset_cache()
 {
-    World w(2);
+    World &w = *new World(2);   // never destroyed: the step ends here
     w.m->resetCache();
     w.checkReports(w.n, R_ERROR);                        // reported, but never as acknowledged
     w.checkMap(0, w.first, 0, w.lastOut);
     w.checkUnchangedCounters(w.enabled);
-    vp_assert(vp_c09_sent_n() == 0, "C09 dropping the cache transmits nothing");
+    w.checkLog(0, w.lastIn);
     w.m->resetCache();                                   // a second call finds nothing to report (no report fires twice)
     w.checkReports(w.n, R_ERROR);
+}
+// ---- two consecutive events (composition check of two steps; thorough tier only): send a stanza under stream management, then
+//      the server acks with an arbitrary h: the new stanza is acknowledged iff lastOut+1 <= h, older ones as in h_ack_enabled ---------
+extern "C" void h_send_then_ack()
+{
+    World &w = *new World(1);
+    QXmppPromise<SendResult> p;
+    QByteArray payload; vp_c09_payload(&payload, NEWID);
+    Task mine = w.m->send(QXmppPacket(payload, true, std::move(p)));
+    vp_assert(report(mine) == R_NONE, "C09 a stanza sent under stream management is not reported before it is acked");
+    unsigned h = vp_u32();
+    w.m->setAcknowledgedSequenceNumber(h);
+    unsigned k = w.covered(h);
+    bool newCovered = w.lastOut + 1 <= h;
+    w.checkReports(k, R_ACKED);
+    vp_assert(report(mine) == (newCovered ? R_ACKED : R_NONE), "C09 the new stanza is acknowledged exactly when the handled-count covers its number");
+    vp_assert(vp_c09_map_n(w.map()) == (w.n - k) + (newCovered ? 0u : 1u), "C09 unacknowledged store holds exactly the stanzas not yet covered");
+    vp_assert(!newCovered || k == w.n, "C09 acknowledgement is cumulative");
+}
+// ---- three consecutive events (thorough tier only): connection loss; a stanza sent while stream management is not active (reported at
+//      once, never stored, never resent); new session with stream management: exactly the old unacked stanzas are resent, renumbered ----
+extern "C" void h_close_send_enable()
+{
+    World &w = *new World(1);
+    w.m->onSessionClosed();
+    QXmppPromise<SendResult> p;
+    QByteArray payload; vp_c09_payload(&payload, NEWID);
+    Task mine = w.m->send(QXmppPacket(payload, true, std::move(p)));
+    bool ok = vp_c09_sent_ok(0);
+    vp_assert(report(mine) == (ok ? R_SENT : R_ERROR), "C09 an unstored packet is reported immediately, never as acknowledged");
+    unsigned before = vp_c09_sent_n();
+    vp_assert(before >= 1 && vp_c09_sent_kind(0) == K_PACKET && vp_c09_sent_val(0) == NEWID, "C09 the packet itself is written");
+    w.m->enableStreamManagement(true);
+    w.checkReports(0, R_NONE);
+    w.checkMap(w.n, 1, 0, w.n);
+    unsigned total = vp_c09_sent_n();
+    vp_assert(total >= before + w.n, "C09 every remaining stanza is transmitted again");
+    for (unsigned j = 0; j < VP_SENT_CAP; j++) {
+        if (j >= before && j < total) {
+            if (j < before + w.n) vp_assert(vp_c09_sent_kind(j) == K_PACKET && vp_c09_sent_val(j) == j - before, "C09 resend of exactly the uncovered stanzas in original order, oldest first, before anything else");
+            else vp_assert(vp_c09_sent_kind(j) != K_PACKET, "C09 no stanza is transmitted (again) by this event beyond the expected ones");
+        }
+    }
 }
